@@ -185,6 +185,20 @@ def generate(rng, tier):
                     u = dict(scheme=scheme, host=rng.choice(HOSTS), port=port, path=upath)
                     cases.append(dict(kind='boundary', rewrite=rewrite, request=rand_request(rng, b'/get'), draws=[0, 0, 0], connect='ok', wrap='ok',
                                       plugins=[dict(before=None, routes=[dict(type='static', regex=r'/get$', urls=[u])])], reads=rand_reads(rng), cut=None))
+    # an earlier plugin already queued a literal / chose an upstream, then a later plugin fails in the same request
+    # (handle_route raising, empty URL list, non-UTF-8 Url): what was queued must be compared as NOT delivered
+    for _ in range(14 if quick else 250):
+        first = rng.choice([dict(type='dynamic', regex=r'/get', ret=dict(bytes=b'HTTP/1.1 200 OK\r\nContent-Length: 2\r\n\r\nok')),
+                            dict(type='static', regex=r'/get', urls=[rand_url(rng)]),
+                            dict(type='dynamic', regex=r'/get', ret=dict(url=rand_url(rng)))])
+        late = rng.choice([dict(type='dynamic', regex=r'/.*', ret=dict(exc='value')), dict(type='dynamic', regex=r'/.*', ret=dict(exc='http')),
+                           dict(type='static', regex=r'/.*', urls=[]),
+                           dict(type='dynamic', regex=r'/.*', ret=dict(url=dict(scheme='http', host='up1.example', port=None, path='/p', raw=b'\xff')))])
+        plugins = [dict(before=None, routes=[first]), dict(before=None, routes=[late])]
+        if rng.random() < 0.3:
+            plugins.insert(1, dict(before=None, routes=[dict(type='dynamic', regex=r'/get$', ret=dict(bytes=b'x'))]))
+        cases.append(dict(kind='late-failure', rewrite=rng.random() < 0.5, plugins=plugins, request=rand_request(rng, rng.choice([b'/get', b'/get/12'])),
+                          draws=[rng.randrange(0, 7) for _ in range(3)], connect=rng.choice(['ok', 'ok', 'unreach']), wrap='ok', reads=rand_reads(rng), cut=None))
     # malformed stream
     for _ in range(30 if quick else 600):
         c = mk_case(rng, 'any', weird=True)
